@@ -193,6 +193,9 @@ func TestVerifProber(t *testing.T) {
 			if rng.Intn(3) == 0 {
 				size = rng.Intn(64) // small payloads, several held at once
 			}
+			if len(heldPayloads) > 0 && rng.Intn(2) == 0 {
+				size = heldPayloads[len(heldPayloads)-1].n // a prober's payload size does not change from probe to probe
+			}
 			pl, h, err := generatePayload(size)
 			sum := sha256.Sum256(pl)
 			ok := "ok"
